@@ -109,15 +109,15 @@ func checkC22(c *Ctx) {
 						continue
 					}
 					rv := ret.Results[0]
-					if rv == e.ev || DependsOn(rv, func(v ssa.Value) bool { return v == e.ev }) {
+					if rv == e.ev || DependsOnVia(nil, rv, InModulePkg(pc), func(v ssa.Value) bool { return v == e.ev }, nil) {
 						bad = "the error is returned to the UI loop at " + c.Prog.Pos(ret.Pos()) + ", which ends the program instead of answering with a message"
 					}
 				}
 				// a message is printed on the failing path
 				printed := false
-				for _, cs := range Calls(pc) {
-					if f := Callee(cs.Common()); f != nil && f.String() == "fmt.Printf" {
-						for _, g := range GuardsOf(cs.Block()) {
+				for _, st := range DeepCalls(pc, InModulePkg(pc)) {
+					if f := Callee(st.Call().Common()); f != nil && f.String() == "fmt.Printf" {
+						for _, g := range st.Guards() {
 							if x, nn, isNil := NilCheck(g.Cond); isNil && x == e.ev && nn == g.Outcome {
 								printed = true
 							}
@@ -229,10 +229,12 @@ func checkC23(c *Ctx) {
 	}
 	// the two kinds of move
 	for _, kind := range []struct{ callee, label string }{{"(*" + pkgDeps + ".Code).Move", "block-move"}, {"(*" + pkgDeps + ".block).Move", "instruction-move"}} {
+		// the move itself, in Lines.Move or in a helper it is split into; the
+		// rest of the rule is stated inside the function that contains the call
 		var call *ssa.Call
-		for _, cs := range Calls(mv) {
-			if FuncNameIs(Callee(cs.Common()), kind.callee) {
-				call, _ = cs.Instr.(*ssa.Call)
+		for _, st := range DeepCalls(mv, InModulePkg(mv)) {
+			if FuncNameIs(Callee(st.Call().Common()), kind.callee) {
+				call, _ = st.Instr.(*ssa.Call)
 			}
 		}
 		if call == nil {
@@ -802,34 +804,67 @@ func prefixLiterals(p *ssa.BasicBlock, s ssa.Value) []prefixLit {
 // --------------------------------------------------------------------- C31
 
 func checkC31(c *Ctx) {
-	c.Rule("C31.set", "Cursor.Set assigns the value only on the edge where checkOffset returned nil (a failed command leaves the cursor unchanged); checkOffset, walked over the orderings of (v, 0, maxValue), accepts exactly 0 <= v < maxValue")
+	c.Rule("C31.set", "Cursor.Set (with the helpers it calls), walked over the 13 orderings of (v, 0, maxValue), stores v and returns nil exactly when 0 <= v < maxValue and otherwise returns an error without touching the cursor; nothing else writes Cursor.value")
 	c.Rule("C31.index", "navigation commands (up, down, goto, find, entrypoint) reach a listing index only with a validated value; the cyclic search of find reduces its start and every step modulo the number of lines")
 	c.Rule("C31.err", "errors of the navigation commands are returned to the UI (error propagation in package disassemble), except setting the cursor to a line obtained from the listing layout")
 	pkgCur := pkgUI + "/internal/cursor"
 	if st := anchor(c, "(*"+pkgCur+".Cursor).Set"); st != nil {
+		// Set(v), walked over the orderings of (v, 0, maxValue) together with the
+		// helpers it calls: the value is stored (and nil returned) exactly when
+		// 0 <= v < maxValue; otherwise an error is returned and nothing stored
 		n := 0
-		for _, b := range st.Blocks {
-			for _, in := range b.Instrs {
-				s, ok := in.(*ssa.Store)
-				if !ok {
-					continue
-				}
-				fa, ok := s.Addr.(*ssa.FieldAddr)
-				if !ok || FieldOf(fa) == nil || FieldOf(fa).Name() != "value" {
-					continue
-				}
-				n++
-				g := false
-				for _, gd := range GuardsOf(b) {
-					x, nn, isNil := NilCheck(gd.Cond)
-					if isNil && nn != gd.Outcome && matches(x, Method("checkOffset", Any(), ParamN(1))) {
-						g = true
+		for _, o := range WeakOrderings(3) {
+			v, max := o[0]-o[1], o[2]-o[1]
+			var stored []int64
+			var vl *Valuation
+			vl = &Valuation{
+				Enter: SamePackage(st),
+				Int: func(x ssa.Value) (int64, bool) {
+					if vl.Root(x) == ssa.Value(st.Params[1]) {
+						return v, true
+					}
+					if n, _, ok := FieldNameOfLoad(x); ok && n == "maxValue" {
+						return max, true
+					}
+					if f, ok := Unwrap(x).(*ssa.Field); ok && FieldOf(f) != nil && FieldOf(f).Name() == "maxValue" {
+						return max, true
+					}
+					return 0, false
+				},
+			}
+			vl.Visit = func(in ssa.Instruction) {
+				if s, ok := in.(*ssa.Store); ok {
+					if fa, ok := s.Addr.(*ssa.FieldAddr); ok && FieldOf(fa) != nil && FieldOf(fa).Name() == "value" {
+						x, known := vl.EvalInt(s.Val, nil)
+						if !known {
+							x = -999
+						}
+						stored = append(stored, x)
 					}
 				}
-				c.Oblige("C31.set", ShortName(st)+"/assign", c.Prog.Pos(s.Pos()), g && s.Val == ssa.Value(st.Params[1]), "the cursor is assigned without checkOffset(v) having returned nil, or with another value")
 			}
+			res := vl.Walk(st.Blocks[0], nil)
+			n++
+			key := fmt.Sprintf("%s/order(v=%d,max=%d)", ShortName(st), v, max)
+			ret, isRet := res.End.(*ssa.Return)
+			if !res.OK || !isRet {
+				c.Fail("C31.set", key, c.Prog.FuncPos(st), "decision not computable: "+res.Why)
+				continue
+			}
+			acc := IsNilConst(ret.Results[0])
+			want := v >= 0 && v < max
+			why := ""
+			switch {
+			case acc != want:
+				why = fmt.Sprintf("offset %d with maximum %d: accepted=%v, expected %v", v, max, acc, want)
+			case want && (len(stored) != 1 || stored[0] != v):
+				why = fmt.Sprintf("offset %d is accepted but the cursor is set to %v", v, stored)
+			case !want && len(stored) != 0:
+				why = fmt.Sprintf("offset %d is rejected but the cursor was changed", v)
+			}
+			c.Oblige("C31.set", key, c.Prog.Pos(ret.Pos()), why == "", why)
 		}
-		c.RequireCount("C31.set stores to Cursor.value", n, 1)
+		c.RequireCount("C31.set orderings walked", n, 13)
 		// value is written nowhere else
 		bad := ""
 		for _, fn := range c.Prog.Funcs() {
@@ -846,33 +881,6 @@ func checkC31(c *Ctx) {
 			}
 		}
 		c.Oblige("C31.set", "only-Set-writes-Cursor.value", c.Prog.FuncPos(st), bad == "", "Cursor.value is written by "+bad)
-	}
-	if co := anchor(c, "("+pkgCur+".Cursor).checkOffset"); co != nil {
-		for _, o := range WeakOrderings(3) {
-			v, max := o[0]-o[1], o[2]-o[1]
-			vl := &Valuation{Int: func(x ssa.Value) (int64, bool) {
-				if x == ssa.Value(co.Params[1]) {
-					return v, true
-				}
-				if n, _, ok := FieldNameOfLoad(x); ok && n == "maxValue" {
-					return max, true
-				}
-				if f, ok := Unwrap(x).(*ssa.Field); ok && FieldOf(f) != nil && FieldOf(f).Name() == "maxValue" {
-					return max, true
-				}
-				return 0, false
-			}}
-			res := vl.Walk(co.Blocks[0], nil)
-			key := fmt.Sprintf("%s/order(v=%d,max=%d)", ShortName(co), v, max)
-			ret, isRet := res.End.(*ssa.Return)
-			if !res.OK || !isRet {
-				c.Fail("C31.set", key, c.Prog.FuncPos(co), "decision not computable: "+res.Why)
-				continue
-			}
-			acc := IsNilConst(ret.Results[0])
-			want := v >= 0 && v < max
-			c.Oblige("C31.set", key, c.Prog.Pos(ret.Pos()), acc == want, fmt.Sprintf("offset %d with maximum %d: accepted=%v, expected %v", v, max, acc, want))
-		}
 	}
 	inDis := func(fn *ssa.Function) bool { return strings.Contains(fileOf(c, fn), "disassemble/commands.go") }
 	n := checkLineIndices(c, "C31.index", inDis)
@@ -905,29 +913,38 @@ func checkC31(c *Ctx) {
 // line itself; a match moves the cursor to exactly the matching line, no match
 // ends in an error without moving the cursor. The form of the loop is free.
 func cyclicSearch(act *ssa.Function) string {
-	var valueCall, lenCall ssa.Value
-	var start *ssa.BasicBlock
-	for _, cs := range Calls(act) {
-		f := Callee(cs.Common())
-		if f == nil {
-			continue
+	enter := SamePackage(act)
+	isCursorValue := func(v ssa.Value) bool {
+		call, ok := v.(*ssa.Call)
+		if !ok {
+			return false
 		}
-		switch {
-		case f.Name() == "Value" && strings.Contains(f.String(), "cursor.Cursor"):
-			valueCall = cs.Instr.(ssa.Value)
-			if start == nil || cs.Instr.Block().Dominates(start) {
-				start = cs.Instr.Block()
+		f := call.Call.StaticCallee()
+		return f != nil && f.Name() == "Value" && strings.Contains(f.String(), "cursor.Cursor")
+	}
+	isLinesLen := func(v ssa.Value) bool {
+		call, ok := v.(*ssa.Call)
+		if !ok {
+			return false
+		}
+		f := call.Call.StaticCallee()
+		return f != nil && f.Name() == "Len" && strings.Contains(f.String(), "lines.Lines")
+	}
+	nV, nL := 0, 0
+	for _, st := range DeepCalls(act, enter) {
+		if v, ok := st.Instr.(ssa.Value); ok {
+			if isCursorValue(v) {
+				nV++
 			}
-		case f.Name() == "Len" && strings.Contains(f.String(), "lines.Lines"):
-			lenCall = cs.Instr.(ssa.Value)
-			if start == nil || cs.Instr.Block().Dominates(start) {
-				start = cs.Instr.Block()
+			if isLinesLen(v) {
+				nL++
 			}
 		}
 	}
-	if valueCall == nil || lenCall == nil {
+	if nV == 0 || nL == 0 {
 		return "the search does not read the cursor position and the number of lines"
 	}
+	start := act.Blocks[0]
 	isCall := func(in ssa.Instruction, name, recv string) *ssa.Call {
 		call, ok := in.(*ssa.Call)
 		if !ok {
@@ -951,18 +968,30 @@ func cyclicSearch(act *ssa.Function) string {
 				matches, evalFail := 0, false
 				var vl *Valuation
 				vl = &Valuation{
+					Enter: enter,
 					Int: func(v ssa.Value) (int64, bool) {
-						switch v {
-						case valueCall:
+						switch {
+						case isCursorValue(v):
 							return offset, true
-						case lenCall:
+						case isLinesLen(v):
 							return cnt, true
+						}
+						if call, ok := v.(*ssa.Call); ok {
+							if bi, isBi := call.Call.Value.(*ssa.Builtin); isBi && bi.Name() == "len" {
+								return 1, true // one argument typed
+							}
 						}
 						return 0, false
 					},
 					Bool: func(v ssa.Value) (bool, bool) {
 						if call, ok := v.(*ssa.Call); ok && isCall(call, "MatchString", "regexp.Regexp") != nil {
 							return matches-1 == k, true
+						}
+						// the pattern compiles: no error before the search
+						if bo, ok := v.(*ssa.BinOp); ok && (bo.Op == token.EQL || bo.Op == token.NEQ) && (IsNilConst(bo.X) || IsNilConst(bo.Y)) {
+							if setArg == nil {
+								return bo.Op == token.EQL, true
+							}
 						}
 						return false, false
 					},
